@@ -301,6 +301,14 @@ func (f *File) Close() error {
 	}
 	f.C.mu.Unlock()
 	c := &Call{K: "Close", F: f.ID, AfterClose: n > 1}
+	defer func() {
+		// A Close that panics never finished closing: later calls on the
+		// handle are not held against the server as use after close.
+		if p := recover(); p != nil {
+			atomic.StoreInt32(&f.closed, 0)
+			panic(p)
+		}
+	}()
 	return resErr(f.C.do(c))
 }
 
